@@ -109,7 +109,7 @@ class Arr:
                 if c is False:
                     return old(bidx)
                 return ite(c, cast_elem(val_fn(idx), dt), old(bidx))
-        root._f = newf
+        root._f = memo_fn(newf)
 
     # -- views
     def view(self, shape, tob, fromb, dtype=None):
@@ -126,6 +126,24 @@ class Arr:
             c1, i1 = fromb(i0)
             return b_and(c0, c1), i1
         return Arr(shape, None, dtype or self.dtype, root=self.root, tob=tob2, fromb=fromb2)
+
+
+def memo_fn(f):
+    """element functions are pure: memoise on the index terms (repeated in-place updates otherwise re-evaluate the
+    previous contents exponentially often)"""
+    cache = {}
+
+    def g(idx):
+        try:
+            key = tuple((i.get_id() if is_z3(i) else ("c", i)) for i in idx)
+        except Exception:
+            return f(idx)
+        hit = cache.get(key)
+        if hit is None:
+            hit = (list(idx), f(idx))      # keep the index terms alive so that ids are not reused
+            cache[key] = hit
+        return hit[1]
+    return g
 
 
 def cast_elem(v, dtype):
